@@ -6,6 +6,7 @@ from vlib import core
 from harness import c16_lib as L
 from harness import c16_lanczos as LZ
 from harness import c16_other as OT
+from harness import c16_api as API
 
 PROP = 'C16'
 MODEL_MODULES = ['TenpyModel.Util.J', 'TenpyModel.C16.Lanczos']
@@ -47,6 +48,7 @@ PARTS = {
     'gmres': (OT.eval_gmres, OT.compare_gmres),
     'gs': (OT.eval_gs, OT.compare_gs),
     'ops': (OT.eval_ops, OT.compare_ops),
+    'api': (API.eval_api, None),
 }
 
 
@@ -55,6 +57,9 @@ def gen_cases(rng, n, exact_fraction=0.4):
     for _ in range(n):
         r = rng.random()
         exact = rng.random() < exact_fraction
+        if rng.random() < 0.12:
+            cases.append(API.gen_case(rng))
+            continue
         if r < 0.34:
             cases.append(LZ.gen_case(rng, exact, evo=False))
         elif r < 0.48:
@@ -139,7 +144,7 @@ def run_cases(ctx, cases, use_model=True, procs=1):
         N = info.get('N') or 0
         nontrivial = case['d'] >= 2 and (N >= 2 or case['part'] in ('gmres', 'gs', 'ops'))
         res.note_case(case, nontrivial)
-        res.count(f'part={case["part"]}.{case["mode"]}')
+        res.count(f'part={case["part"]}.{case["mode"]}' + (f'.{case["scenario"]}' if case['part'] == 'api' else ''))
         res.count(f'd={case["d"] if case["d"] <= 8 else (str(case["d"] // 10 * 10) + "+")}')
         res.count(f'charges={case["st"]["ch"]}.{case["st"]["blocking"]}')
         if case['part'] in ('lanczos', 'evo'):
